@@ -58,6 +58,14 @@ check("C06", "TLC exploration of Instance histories (edits x coverings, covering
       "DESIGN.md §4.4, §6 C06")
 
 
+check("C07", "TLC exploration of BMUpdate histories + Ineligible computed by the spec + replay of advertised updaters",
+      "TLC explores create(D0); bm(f, v) histories over family UB (eligible bindings on every channel, every "
+      "unreachable position holding a field through several expression forms) and computes Ineligible(file); the "
+      "harness requires the advertised keys of B to be disjoint from Ineligible and, for every advertised field, runs "
+      "exactly B[f] with the new data and compares with the spec's tree and a fresh creation.",
+      "DESIGN.md §4.4, §6 C07")
+
+
 def main():
     props = [json.loads(l) for l in open(os.path.join(HERE, "properties.jsonl"))]
     ids = [p["id"] for p in props]
